@@ -304,6 +304,34 @@ func c15Attrs(c *Case) {
 	if c.Res.Status == "violated" {
 		return
 	}
+	// an explicit write_time set inside an open transaction (which started on the default clock)
+	// stays in force after COMMIT / ROLLBACK
+	{
+		conn.Exec("update s3db_conn set write_time=NULL")
+		conn.Exec("begin")
+		conn.Exec(fmt.Sprintf("insert into %s values (800001, 'in-tx-default', 'x')", t))
+		wt := 6000 + r.Intn(100)
+		conn.SetWriteTime(wt)
+		conn.Exec(fmt.Sprintf("insert into %s values (800002, 'in-tx-explicit', 'x')", t))
+		end := "commit"
+		if r.Intn(3) == 0 {
+			end = "rollback"
+		}
+		conn.Exec(end)
+		trace = append(trace, fmt.Sprintf("begin; insert (default clock); set write_time=%s; insert; %s", tstr(wt), end))
+		if got, ok := readConn(conn); ok && got != "NULL|t:"+tstr(wt) {
+			fail("write-time-lost-at-"+end, fmt.Sprintf("write_time %s was set inside a transaction; after %s s3db_conn shows %s", tstr(wt), end, got))
+			return
+		}
+		if err := conn.Exec(fmt.Sprintf("insert into %s values (800003, 'after-tx', 'x')", t)); err == nil {
+			if e := entry(800003); e != nil && e.DeleteTime() != tnanos(wt) {
+				fail("stamp-differs-after-tx", fmt.Sprintf("a statement after %s carries stamp %s, write_time in force is %s", end, time.Unix(0, e.DeleteTime()).UTC().Format(time.RFC3339), tstr(wt)))
+				return
+			}
+		}
+		conn.Exec("update s3db_conn set write_time=NULL")
+		c.Count("write_time_set_inside_tx", 1)
+	}
 	// the other connection never saw any of it
 	if got, ok := readConn(other); ok && got != "NULL|NULL" {
 		fail("cross-talk", "another connection shows "+got)
